@@ -23,6 +23,9 @@ def run(tier):
         free = [("sliding", dict(size=4, slide=2, moo=3, al=0), 300, 60), ("sliding", dict(size=5, slide=2, moo=2, al=0), 300, 60),
                 ("sliding", dict(size=2, slide=5, moo=1, al=0), 200, 50), ("sliding", dict(size=6, slide=2, moo=0, al=0), 200, 50),
                 ("sliding", dict(size=7, slide=3, moo=4, al=0), 200, 60)]
+    # a slide much smaller than the size: one watermark step may pass the end of hundreds of intervals - all of them fire
+    free = free + [("sliding", dict(size=160, slide=1, moo=0, al=0, manyintervals=True, perf={"winout": 4096}), 3 if tier == "quick" else 20, 0),
+                   ("sliding", dict(size=150, slide=2, moo=1, al=0, manyintervals=True, perf={"winout": 4096}), 2 if tier == "quick" else 20, 0)]
     post = lambda res, rng, vh, scen: win.proc_sliding_stage(res, rng, vh, scen, quick=(tier == "quick"))
     return win.run_family("C08", tier, plan, free, ASSUME, post=post)
 
